@@ -354,3 +354,725 @@ Proof.
   intros depth existing ops H. apply queue_depth_bound.
   pose proof (init_out_length existing). lia.
 Qed.
+
+(* ------------------------------------------------------------------------------------------ *)
+(* HPC usage: only process_queue and `if not is_full(): submit(unblocked job)`.  Also covers a queue
+   constructed with MORE existing entries than its depth. *)
+Definition guarded_op (o : op) : Prop :=
+  match o with
+  | OpSubmit _ _ => False
+  | OpSubmitIfNotFull j _ => j_block j = []
+  | OpProcess _ _ => True
+  end.
+
+Record inv2 (depth k : Z) (s : qstate) : Prop := {
+  inv2_noparked : noparked (q_out s);
+  inv2_queued : q_queued s = [];
+  inv2_len : Z.of_nat (length (q_out s)) <= Z.max depth k;
+  inv2_log : Forall (ev_live_ok depth) (q_log s);
+  inv2_err : q_err s = false
+}.
+
+Lemma step_inv2 depth k s o : guarded_op o -> inv2 depth k s -> inv2 depth k (step depth s o).
+Proof.
+  intros Hg [Hn Hq Hl Hlog He]. destruct o as [j ok|j ok|ans runs]; cbn in *; [destruct Hg| |].
+  - unfold is_full. destruct (Z.of_nat (length (q_out s)) >=? depth) eqn:Hf; [constructor; assumption|].
+    unfold submit, is_full. rewrite Hf, Hg. cbn.
+    rewrite Z.geb_leb in Hf. apply Z.leb_gt in Hf.
+    pose proof (run_job_inv depth s {| qj_job := j; qj_block := [] |} ok Hn ltac:(lia) Hlog)
+      as [A [B [C [D E]]]].
+    constructor; [exact A|congruence|lia|exact C|congruence].
+  - unfold process_queue. destruct (check_completions s ans) as [[s1 f1] a1] eqn:Hc.
+    pose proof (check_completions_out_length _ _ _ _ _ Hc Hn) as HL.
+    apply check_completions_facts in Hc. destruct Hc as [[_ [E1 [evs [G1 F1]]]] [Q1 N1]].
+    rewrite Hq in Q1. cbn in Q1. destruct (q_queued s1) eqn:Hq1; [|cbn in Q1; lia]. cbn.
+    constructor; [exact N1|exact Hq1|lia| |congruence].
+    rewrite G1. apply Forall_app. split; [exact Hlog|apply norun_live_ok; exact F1].
+Qed.
+
+Lemma run_ops_inv2 depth k ops : forall s, Forall guarded_op ops -> inv2 depth k s ->
+  inv2 depth k (run_ops depth s ops).
+Proof.
+  unfold run_ops. induction ops as [|o r IH]; intros s Hg H; cbn; [exact H|].
+  inversion Hg; subst. apply IH; [assumption|]. apply step_inv2; assumption.
+Qed.
+
+Theorem queue_hpc_bound : forall depth existing ops,
+  Forall guarded_op ops ->
+  let k := Z.of_nat (length (q_out (init existing))) in
+  let s := run_ops depth (init existing) ops in
+  q_queued s = [] /\ noparked (q_out s) /\
+  Z.of_nat (length (q_out s)) <= Z.max depth k /\
+  (forall j blk ok n, In (EvRun j blk ok n) (q_log s) -> Z.of_nat n <= depth) /\
+  q_err s = false.
+Proof.
+  intros depth existing ops Hg k s.
+  assert (I0 : inv2 depth k (init existing)).
+  { constructor; [apply init_noparked|reflexivity|unfold k; lia|constructor|reflexivity]. }
+  destruct (run_ops_inv2 depth k ops _ Hg I0) as [A B C D E].
+  repeat split; [exact B|exact A|exact C| |exact E].
+  intros j blk ok n Hin. rewrite Forall_forall in D. exact (D _ Hin).
+Qed.
+
+Lemma hpc_round_ops_guarded answers batches : Forall guarded_op (hpc_round_ops answers batches).
+Proof.
+  unfold hpc_round_ops. constructor; [exact I|].
+  apply Forall_forall. intros o Ho. apply in_map_iff in Ho. destruct Ho as [b [<- _]]. reflexivity.
+Qed.
+
+(* ------------------------------------------------------------------------------------------ *)
+(* C02 contracts: run only when unblocked and after every blocker was seen complete; a name leaves a
+   blocking set only after that job was seen complete in _check_completions *)
+Fixpoint cnames (log : list ev) : list N :=
+  match log with
+  | [] => []
+  | EvComplete n _ :: r => n :: cnames r
+  | _ :: r => cnames r
+  end.
+
+Lemma cnames_app a b : cnames (a ++ b) = cnames a ++ cnames b.
+Proof. induction a as [|e r IH]; cbn; [reflexivity|]. destruct e; cbn; rewrite IH; reflexivity. Qed.
+
+Lemma cnames_In n log : In n (cnames log) <-> exists rc, In (EvComplete n rc) log.
+Proof.
+  induction log as [|e r IH]; cbn.
+  - split; [intros []|intros [rc []]].
+  - destruct e as [j b o l|m rc|j b|a b]; cbn; rewrite IH; split.
+    + intros [rc H]; exists rc; right; exact H.
+    + intros [rc [H|H]]; [discriminate|exists rc; exact H].
+    + intros [E|[rc' H]]; [subst; exists rc; left; reflexivity|exists rc'; right; exact H].
+    + intros [rc' [H|H]]; [inversion H; left; reflexivity|right; exists rc'; exact H].
+    + intros [rc H]; exists rc; right; exact H.
+    + intros [rc [H|H]]; [discriminate|exists rc; exact H].
+    + intros [rc H]; exists rc; right; exact H.
+    + intros [rc [H|H]]; [discriminate|exists rc; exact H].
+Qed.
+
+Definition ev_just (seen : list N) (e : ev) : Prop :=
+  match e with
+  | EvRun j blk _ _ => blk = [] /\ forall b, In b (j_block j) -> In b seen
+  | EvUnblock _ b => In b seen
+  | _ => True
+  end.
+
+Definition justified (log : list ev) : Prop :=
+  forall pre e post, log = pre ++ e :: post -> ev_just (cnames pre) e.
+
+Lemma ev_just_mono seen seen' e : incl seen seen' -> ev_just seen e -> ev_just seen' e.
+Proof. intros Hi. destruct e; cbn; auto. intros [H1 H2]. split; auto. Qed.
+
+Lemma justified_app l1 l2 : justified l1 -> Forall (ev_just (cnames l1)) l2 -> justified (l1 ++ l2).
+Proof.
+  intros H1 H2 pre e post Heq. apply app_eq_app in Heq. destruct Heq as [l [[E1 E2]|[E1 E2]]].
+  - destruct l as [|e' l'].
+    + cbn in E2. rewrite app_nil_r in E1. subst pre. rewrite Forall_forall in H2.
+      apply H2. rewrite <- E2. left. reflexivity.
+    + cbn in E2. inversion E2; subst e' post. apply (H1 pre e l'). exact E1.
+  - subst pre. rewrite Forall_forall in H2. eapply ev_just_mono; [|apply H2; rewrite E2; apply in_elt].
+    rewrite cnames_app. apply incl_appl. apply incl_refl.
+Qed.
+
+(* a queued job: its current blocking set is a subset of the submitted one, and every name that
+   left it has been seen complete *)
+Definition qok (seen : list N) (x : qjob) : Prop :=
+  incl (qj_block x) (j_block (qj_job x)) /\
+  forall b, In b (j_block (qj_job x)) -> In b (qj_block x) \/ In b seen.
+
+Lemma qok_mono seen seen' x : incl seen seen' -> qok seen x -> qok seen' x.
+Proof. intros Hi [A B]. split; [exact A|]. intros b Hb. destruct (B b Hb); auto. Qed.
+
+Lemma removeN_In n l x : In x (removeN n l) <-> In x l /\ x <> n.
+Proof.
+  unfold removeN. rewrite filter_In, negb_true_iff, N.eqb_neq. tauto.
+Qed.
+
+Lemma sweep_just name failed seen q : forall kept canc evs,
+  sweep name failed q = (kept, canc, evs) -> In name seen ->
+  (forall x, In x q -> qok seen x) ->
+  Forall (ev_just seen) evs /\ (forall x, In x kept -> qok seen x).
+Proof.
+  induction q as [|x r IH]; intros kept canc evs H Hs Hq; cbn in H.
+  - inversion H; subst. split; [constructor|intros x []].
+  - destruct (sweep name failed r) as [[k c] e].
+    destruct (IH k c e eq_refl Hs (fun y Hy => Hq y (or_intror Hy))) as [A B].
+    destruct (must_cancel failed x); [|destruct (memN name (qj_block x)) eqn:Hm]; inversion H; subst; clear H.
+    + split; [constructor; [exact I|exact A]|exact B].
+    + split; [constructor; [exact Hs|exact A]|].
+      intros y [<-|Hy]; [|apply B; exact Hy].
+      destruct (Hq x (or_introl eq_refl)) as [Q1 Q2]. split; cbn.
+      * intros b Hb. apply removeN_In in Hb. apply Q1. tauto.
+      * intros b Hb. destruct (N.eq_dec b name) as [->|Hne]; [right; exact Hs|].
+        destruct (Q2 b Hb) as [H1|H1]; [left; apply removeN_In; tauto|right; exact H1].
+    + split; [exact A|]. intros y [<-|Hy]; [apply Hq; left; reflexivity|apply B; exact Hy].
+Qed.
+
+Definition jinv (s : qstate) : Prop :=
+  justified (q_log s) /\ forall x, In x (q_queued s) -> qok (cnames (q_log s)) x.
+
+Lemma handle_one_jinv failed s name s' c : handle_one failed s name = (s', c) ->
+  In name (cnames (q_log s)) -> jinv s -> jinv s' /\ incl (cnames (q_log s)) (cnames (q_log s')).
+Proof.
+  unfold handle_one. destruct (sweep name failed (q_queued s)) as [[kept canc] evs] eqn:Hs.
+  intros H Hn [J Q]. inversion H; subst; clear H. cbn.
+  destruct (sweep_just _ _ _ _ _ _ _ Hs Hn Q) as [A B].
+  assert (Hi : incl (cnames (q_log s)) (cnames (q_log s ++ evs)))
+    by (rewrite cnames_app; apply incl_appl; apply incl_refl).
+  split; [|exact Hi]. split; cbn.
+  - apply justified_app; assumption.
+  - intros x Hx. eapply qok_mono; [exact Hi|apply B; exact Hx].
+Qed.
+
+Lemma handle_all_jinv failed names : forall s s' c, handle_all failed s names = (s', c) ->
+  (forall n, In n names -> In n (cnames (q_log s))) -> jinv s ->
+  jinv s' /\ incl (cnames (q_log s)) (cnames (q_log s')).
+Proof.
+  induction names as [|n r IH]; intros s s' c H Hn J; cbn in H.
+  - inversion H; subst. split; [exact J|apply incl_refl].
+  - destruct (handle_one failed s n) as [s1 c1] eqn:H1.
+    destruct (handle_all failed s1 r) as [s2 c2] eqn:H2. inversion H; subst; clear H.
+    destruct (handle_one_jinv _ _ _ _ _ H1 (Hn n (or_introl eq_refl)) J) as [J1 I1].
+    destruct (IH _ _ _ H2 (fun m Hm => I1 _ (Hn m (or_intror Hm))) J1) as [J2 I2].
+    split; [exact J2|]. eapply incl_tran; eassumption.
+Qed.
+
+Lemma cnames_completes comp : cnames (map (fun c : N * Z => EvComplete (fst c) (snd c)) comp) = map fst comp.
+Proof. induction comp as [|c r IH]; cbn; [reflexivity|]. rewrite IH. reflexivity. Qed.
+
+Lemma check_iter_jinv failed s ans s2 rerun failed' ans' :
+  check_iter failed s ans = (s2, rerun, failed', ans') -> jinv s -> jinv s2.
+Proof.
+  unfold check_iter. destruct (scan (q_out s) ans) as [comp a] eqn:Hs.
+  match goal with |- context [handle_all ?f ?s1 ?n] => destruct (handle_all f s1 n) as [s2' r] eqn:Hh end.
+  intros H [J Q]. inversion H; subst; clear H.
+  eapply handle_all_jinv in Hh; [exact (proj1 Hh)| |]; cbn.
+  - intros n Hn. rewrite cnames_app, cnames_completes. apply in_or_app. right. exact Hn.
+  - split; cbn.
+    + apply justified_app; [exact J|]. apply Forall_forall. intros e He.
+      apply in_map_iff in He. destruct He as [c [<- _]]. exact I.
+    + intros x Hx. eapply qok_mono; [|apply Q; exact Hx].
+      rewrite cnames_app. apply incl_appl. apply incl_refl.
+Qed.
+
+Lemma check_loop_jinv : forall fuel failed s ans s' f' a',
+  check_loop fuel failed s ans = (s', f', a') -> jinv s -> jinv s'.
+Proof.
+  induction fuel as [|f IH]; intros failed s ans s' f' a' H J; cbn in H.
+  - inversion H; subst. exact J.
+  - destruct (check_iter failed s ans) as [[[s2 rerun] failed2] ans2] eqn:Hi.
+    apply check_iter_jinv in Hi; [|exact J]. destruct rerun.
+    + eapply IH; eassumption.
+    + inversion H; subst. exact Hi.
+Qed.
+
+Lemma run_job_jinv s x ok :
+  justified (q_log s) -> qj_block x = [] -> (forall b, In b (j_block (qj_job x)) -> In b (cnames (q_log s))) ->
+  let s1 := run_job s x ok in
+  justified (q_log s1) /\ q_queued s1 = q_queued s /\ incl (cnames (q_log s)) (cnames (q_log s1)).
+Proof.
+  intros J Hb Hd. unfold run_job. destruct ok; cbn.
+  - split; [|split; [reflexivity|rewrite cnames_app; apply incl_appl; apply incl_refl]].
+    apply justified_app; [exact J|]. constructor; [|constructor]. cbn. split; assumption.
+  - split; [|split; [reflexivity|rewrite cnames_app; apply incl_appl; apply incl_refl]].
+    apply justified_app; [exact J|]. constructor; [|constructor]. cbn. split; assumption.
+Qed.
+
+Lemma launch_jinv avail q : forall count s runs s' rest runs',
+  launch avail q count s runs = (s', rest, runs') ->
+  justified (q_log s) -> (forall x, In x q -> qok (cnames (q_log s)) x) ->
+  justified (q_log s') /\ incl rest q /\ incl (cnames (q_log s)) (cnames (q_log s')) /\
+  q_queued s' = q_queued s.
+Proof.
+  induction q as [|x r IH]; intros count s runs s' rest runs' H J Q; cbn in H.
+  - inversion H; subst. repeat split; [exact J|apply incl_refl|apply incl_refl].
+  - destruct (is_nil (qj_block x)) eqn:Hb; cbn in H.
+    + destruct (pop_run runs) as [ok runs1].
+      assert (Hb' : qj_block x = []) by (destruct (qj_block x); [reflexivity|discriminate]).
+      destruct (Q x (or_introl eq_refl)) as [_ Q2].
+      assert (Hd : forall b, In b (j_block (qj_job x)) -> In b (cnames (q_log s))).
+      { intros b Hbb. destruct (Q2 b Hbb) as [H1|H1]; [rewrite Hb' in H1; destruct H1|exact H1]. }
+      pose proof (run_job_jinv s x ok J Hb' Hd) as [J1 [E1 I1]].
+      destruct (count + 1 >=? avail).
+      * inversion H; subst; clear H. repeat split; [exact J1|apply incl_tl; apply incl_refl|exact I1|exact E1].
+      * eapply IH in H; [|exact J1|].
+        -- destruct H as [A [B [C D]]]. repeat split; [exact A|apply incl_tl; exact B| |congruence].
+           eapply incl_tran; eassumption.
+        -- intros y Hy. eapply qok_mono; [exact I1|]. apply Q. right. exact Hy.
+    + destruct (launch avail r count s runs) as [[s0 rest0] runs0] eqn:Hr.
+      inversion H; subst; clear H.
+      eapply IH in Hr; [|exact J|intros y Hy; apply Q; right; exact Hy].
+      destruct Hr as [A [B [C D]]]. repeat split; [exact A| |exact C|exact D].
+      intros y [<-|Hy]; [left; reflexivity|right; apply B; exact Hy].
+Qed.
+
+Lemma process_queue_jinv depth s ans runs : jinv s -> jinv (process_queue depth s ans runs).
+Proof.
+  intros J. unfold process_queue.
+  destruct (check_completions s ans) as [[s1 f1] a1] eqn:Hc.
+  apply check_loop_jinv in Hc; [|exact J].
+  destruct (is_nil (q_queued s1)); [exact Hc|].
+  destruct (depth - Z.of_nat (length (q_out s1)) =? 0); [exact Hc|].
+  destruct (launch _ (q_queued s1) 0 s1 runs) as [[s2 rest] runs2] eqn:Hla.
+  destruct Hc as [J1 Q1]. eapply launch_jinv in Hla; [|exact J1|exact Q1].
+  destruct Hla as [A [B [C D]]]. split; cbn; [exact A|].
+  intros x Hx. eapply qok_mono; [exact C|]. apply Q1. apply B. exact Hx.
+Qed.
+
+Lemma submit_jinv depth s j ok : jinv s -> jinv (submit depth s j ok).
+Proof.
+  intros [J Q]. unfold submit.
+  assert (Hq : forall x, In x (q_queued s ++ [{| qj_job := j; qj_block := j_block j |}]) ->
+                         qok (cnames (q_log s)) x).
+  { intros x Hx. apply in_app_or in Hx. destruct Hx as [Hx|[<-|[]]]; [apply Q; exact Hx|].
+    split; cbn; [apply incl_refl|]. intros b Hb. left. exact Hb. }
+  destruct (is_full depth s); [split; cbn; assumption|].
+  destruct (is_nil (j_block j)) eqn:Hb; cbn; [|split; cbn; assumption].
+  assert (Hb' : j_block j = []) by (destruct (j_block j); [reflexivity|discriminate]).
+  pose proof (run_job_jinv s {| qj_job := j; qj_block := j_block j |} ok J Hb') as R. cbn in R.
+  destruct R as [J1 [E1 I1]]; [rewrite Hb'; intros b []|].
+  split; [exact J1|]. rewrite E1. intros x Hx. eapply qok_mono; [exact I1|]. apply Q. exact Hx.
+Qed.
+
+Lemma run_ops_jinv depth ops : forall s, jinv s -> jinv (run_ops depth s ops).
+Proof.
+  unfold run_ops. induction ops as [|o r IH]; intros s H; cbn; [exact H|].
+  apply IH. destruct o as [j ok|j ok|ans runs]; cbn.
+  - apply submit_jinv; exact H.
+  - destruct (is_full depth s); [exact H|apply submit_jinv; exact H].
+  - apply process_queue_jinv; exact H.
+Qed.
+
+Lemma init_jinv existing : jinv (init existing).
+Proof.
+  split; cbn; [|intros x []]. intros pre e post H. destruct pre; discriminate.
+Qed.
+
+Theorem queue_runs_only_unblocked : forall depth existing ops j blk ok n,
+  In (EvRun j blk ok n) (q_log (run_ops depth (init existing) ops)) -> blk = [].
+Proof.
+  intros depth existing ops j blk ok n Hin.
+  destruct (run_ops_jinv depth ops _ (init_jinv existing)) as [J _].
+  apply in_split in Hin. destruct Hin as [pre [post E]]. exact (proj1 (J _ _ _ E)).
+Qed.
+
+Theorem queue_run_after_blockers : forall depth existing ops pre j blk ok n post,
+  q_log (run_ops depth (init existing) ops) = pre ++ EvRun j blk ok n :: post ->
+  forall b, In b (j_block j) -> exists rc, In (EvComplete b rc) pre.
+Proof.
+  intros depth existing ops pre j blk ok n post E b Hb.
+  destruct (run_ops_jinv depth ops _ (init_jinv existing)) as [J _].
+  apply cnames_In. exact (proj2 (J _ _ _ E) b Hb).
+Qed.
+
+Theorem queue_unblock_only_on_completion : forall depth existing ops,
+  let s := run_ops depth (init existing) ops in
+  (forall pre jn b post, q_log s = pre ++ EvUnblock jn b :: post -> exists rc, In (EvComplete b rc) pre) /\
+  (forall x, In x (q_queued s) ->
+     incl (qj_block x) (j_block (qj_job x)) /\
+     forall b, In b (j_block (qj_job x)) -> In b (qj_block x) \/ exists rc, In (EvComplete b rc) (q_log s)).
+Proof.
+  intros depth existing ops s.
+  destruct (run_ops_jinv depth ops _ (init_jinv existing)) as [J Q]. fold s in J, Q. split.
+  - intros pre jn b post E. apply cnames_In. exact (J _ _ _ E).
+  - intros x Hx. destruct (Q x Hx) as [A B]. split; [exact A|].
+    intros b Hb. destruct (B b Hb) as [H|H]; [left; exact H|right; apply cnames_In; exact H].
+Qed.
+
+(* ------------------------------------------------------------------------------------------ *)
+(* each submitted job is started (run() called) or canceled at most once, never both *)
+Definition starts_of (n : N) (e : ev) : bool :=
+  match e with
+  | EvRun j _ _ _ => N.eqb (j_name j) n
+  | EvCancel j _ => N.eqb (j_name j) n
+  | _ => false
+  end.
+Definition nstarted (n : N) (log : list ev) : nat := length (filter (starts_of n) log).
+Definition nqueued (n : N) (q : list qjob) : nat := length (filter (fun x => N.eqb (qname x) n) q).
+Definition submits_of (n : N) (o : op) : bool :=
+  match o with
+  | OpSubmit j _ | OpSubmitIfNotFull j _ => N.eqb (j_name j) n
+  | OpProcess _ _ => false
+  end.
+Definition nsubmits (n : N) (ops : list op) : nat := length (filter (submits_of n) ops).
+Definition acct (n : N) (s : qstate) : nat := (nstarted n (q_log s) + nqueued n (q_queued s))%nat.
+Arguments nstarted : simpl never.
+Arguments nqueued : simpl never.
+
+Lemma nstarted_app n a b : nstarted n (a ++ b) = (nstarted n a + nstarted n b)%nat.
+Proof. unfold nstarted. rewrite filter_app, app_length. reflexivity. Qed.
+
+Lemma sweep_acct n name failed q : forall kept canc evs,
+  sweep name failed q = (kept, canc, evs) -> (nqueued n kept + nstarted n evs = nqueued n q)%nat.
+Proof.
+  unfold nqueued, nstarted.
+  induction q as [|x r IH]; intros kept canc evs H; cbn in H.
+  - inversion H; reflexivity.
+  - destruct (sweep name failed r) as [[k c] e]. specialize (IH k c e eq_refl).
+    destruct (must_cancel failed x); [|destruct (memN name (qj_block x))]; inversion H; subst; clear H; cbn;
+      unfold qname in *; cbn; destruct (N.eqb (j_name (qj_job x)) n); cbn; lia.
+Qed.
+
+Lemma handle_one_acct n failed s name s' c : handle_one failed s name = (s', c) -> acct n s' = acct n s.
+Proof.
+  unfold handle_one, acct. destruct (sweep name failed (q_queued s)) as [[kept canc] evs] eqn:Hs.
+  intros H. inversion H; subst; clear H. cbn [q_log q_queued]. rewrite nstarted_app.
+  pose proof (sweep_acct n _ _ _ _ _ _ Hs). lia.
+Qed.
+
+Lemma handle_all_acct n failed names : forall s s' c, handle_all failed s names = (s', c) -> acct n s' = acct n s.
+Proof.
+  induction names as [|m r IH]; intros s s' c H; cbn in H.
+  - inversion H; reflexivity.
+  - destruct (handle_one failed s m) as [s1 c1] eqn:H1.
+    destruct (handle_all failed s1 r) as [s2 c2] eqn:H2. inversion H; subst; clear H.
+    rewrite (IH _ _ _ H2). eapply handle_one_acct; eassumption.
+Qed.
+
+Lemma nstarted_completes n comp : nstarted n (map (fun c : N * Z => EvComplete (fst c) (snd c)) comp) = 0%nat.
+Proof. unfold nstarted. induction comp as [|c r IH]; cbn; [reflexivity|exact IH]. Qed.
+
+Lemma check_iter_acct n failed s ans s2 rerun failed' ans' :
+  check_iter failed s ans = (s2, rerun, failed', ans') -> acct n s2 = acct n s.
+Proof.
+  unfold check_iter. destruct (scan (q_out s) ans) as [comp a] eqn:Hs.
+  match goal with |- context [handle_all ?f ?s1 ?m] => destruct (handle_all f s1 m) as [s2' r] eqn:Hh end.
+  intros H. inversion H; subst; clear H. rewrite (handle_all_acct n _ _ _ _ _ Hh).
+  unfold acct. cbn. rewrite nstarted_app, nstarted_completes. lia.
+Qed.
+
+Lemma check_loop_acct n : forall fuel failed s ans s' f' a',
+  check_loop fuel failed s ans = (s', f', a') -> acct n s' = acct n s.
+Proof.
+  induction fuel as [|f IH]; intros failed s ans s' f' a' H; cbn in H.
+  - inversion H; reflexivity.
+  - destruct (check_iter failed s ans) as [[[s2 rerun] failed2] ans2] eqn:Hi.
+    apply (check_iter_acct n) in Hi. destruct rerun.
+    + rewrite (IH _ _ _ _ _ _ H). exact Hi.
+    + inversion H; subst. exact Hi.
+Qed.
+
+Lemma run_job_acct n s x ok :
+  nstarted n (q_log (run_job s x ok)) = (nstarted n (q_log s) + (if N.eqb (qname x) n then 1 else 0))%nat /\
+  q_queued (run_job s x ok) = q_queued s.
+Proof.
+  unfold run_job. destruct ok; cbn; rewrite nstarted_app; unfold nstarted, qname; cbn;
+    destruct (N.eqb (j_name (qj_job x)) n); cbn; split; reflexivity.
+Qed.
+
+Lemma launch_acct n avail q : forall count s runs s' rest runs',
+  launch avail q count s runs = (s', rest, runs') ->
+  (nstarted n (q_log s') + nqueued n rest = nstarted n (q_log s) + nqueued n q)%nat.
+Proof.
+  induction q as [|x r IH]; intros count s runs s' rest runs' H; cbn in H.
+  - inversion H; reflexivity.
+  - destruct (negb (is_nil (qj_block x))).
+    + destruct (launch avail r count s runs) as [[s0 rest0] runs0] eqn:Hr.
+      inversion H; subst; clear H. specialize (IH _ _ _ _ _ _ Hr).
+      unfold nqueued in *. cbn. destruct (N.eqb (qname x) n); cbn; lia.
+    + destruct (pop_run runs) as [ok runs1].
+      destruct (run_job_acct n s x ok) as [A _].
+      destruct (count + 1 >=? avail).
+      * inversion H; subst; clear H. rewrite A. unfold nqueued. cbn. destruct (N.eqb (qname x) n); cbn; lia.
+      * specialize (IH _ _ _ _ _ _ H). rewrite IH, A. unfold nqueued. cbn.
+        destruct (N.eqb (qname x) n); cbn; lia.
+Qed.
+
+Lemma process_queue_acct n depth s ans runs : acct n (process_queue depth s ans runs) = acct n s.
+Proof.
+  unfold process_queue. destruct (check_completions s ans) as [[s1 f1] a1] eqn:Hc.
+  apply (check_loop_acct n) in Hc.
+  destruct (is_nil (q_queued s1)); [exact Hc|].
+  destruct (depth - Z.of_nat (length (q_out s1)) =? 0); [exact Hc|].
+  destruct (launch _ (q_queued s1) 0 s1 runs) as [[s2 rest] runs2] eqn:Hla.
+  apply (launch_acct n) in Hla. unfold acct in *. cbn. lia.
+Qed.
+
+Lemma submit_acct n depth s j ok :
+  acct n (submit depth s j ok) = (acct n s + (if N.eqb (j_name j) n then 1 else 0))%nat.
+Proof.
+  unfold submit, acct.
+  assert (Hq : nqueued n (q_queued s ++ [{| qj_job := j; qj_block := j_block j |}]) =
+               (nqueued n (q_queued s) + (if N.eqb (j_name j) n then 1 else 0))%nat).
+  { unfold nqueued. rewrite filter_app, app_length. cbn. unfold qname. cbn.
+    destruct (N.eqb (j_name j) n); reflexivity. }
+  destruct (is_full depth s); [cbn; lia|].
+  destruct (negb (is_nil (j_block j))); [cbn; lia|].
+  destruct (run_job_acct n s {| qj_job := j; qj_block := j_block j |} ok) as [A B].
+  rewrite A, B. unfold qname. cbn. lia.
+Qed.
+
+Lemma run_ops_acct n depth ops : forall s,
+  (acct n (run_ops depth s ops) <= acct n s + nsubmits n ops)%nat.
+Proof.
+  unfold run_ops, nsubmits. induction ops as [|o r IH]; intros s; cbn; [lia|].
+  eapply Nat.le_trans; [apply IH|].
+  destruct o as [j ok|j ok|ans runs]; cbn.
+  - rewrite submit_acct. destruct (N.eqb (j_name j) n); cbn; lia.
+  - destruct (is_full depth s); [destruct (N.eqb (j_name j) n); cbn; lia|].
+    rewrite submit_acct. destruct (N.eqb (j_name j) n); cbn; lia.
+  - rewrite process_queue_acct. lia.
+Qed.
+
+(* for every name: #run() calls + #cancels of jobs with that name <= #submit calls with that name *)
+Theorem queue_runs_once : forall depth existing ops n,
+  (nstarted n (q_log (run_ops depth (init existing) ops)) <= nsubmits n ops)%nat.
+Proof.
+  intros depth existing ops n. pose proof (run_ops_acct n depth ops (init existing)) as H.
+  unfold acct in H. change (nstarted n (q_log (init existing))) with 0%nat in H.
+  change (nqueued n (q_queued (init existing))) with 0%nat in H. lia.
+Qed.
+
+(* ------------------------------------------------------------------------------------------ *)
+(* C04 contract: the cancel fix-point of one _check_completions pass *)
+Lemma must_cancel_true failed x : must_cancel failed x = true ->
+  j_flag (qj_job x) = true /\ exists b, In b (qj_block x) /\ In b failed.
+Proof.
+  unfold must_cancel. intros H. apply andb_true_iff in H. destruct H as [H H3].
+  apply andb_true_iff in H. destruct H as [_ H2]. split; [exact H2|].
+  destruct (interN (qj_block x) failed) as [|b r] eqn:E; [discriminate|].
+  exists b. apply interN_spec. rewrite E. left. reflexivity.
+Qed.
+
+Lemma must_cancel_false failed x : must_cancel failed x = false ->
+  j_flag (qj_job x) = false \/ forall b, In b (qj_block x) -> ~ In b failed.
+Proof.
+  unfold must_cancel. intros H.
+  destruct (j_flag (qj_job x)); [right|left; reflexivity].
+  intros b Hb Hf.
+  assert (Hin : In b (interN (qj_block x) failed)) by (apply interN_spec; tauto).
+  destruct (qj_block x) as [|b0 r0]; [destruct Hb|].
+  destruct (interN (b0 :: r0) failed); [destruct Hin|]. cbn in H. discriminate.
+Qed.
+
+Lemma must_cancel_shrink failed x blk : must_cancel failed x = false -> incl blk (qj_block x) ->
+  must_cancel failed {| qj_job := qj_job x; qj_block := blk |} = false.
+Proof.
+  intros H Hi. apply must_cancel_false in H. unfold must_cancel. cbn [qj_job qj_block].
+  destruct H as [H|H]; [rewrite H; destruct (is_nil blk); reflexivity|].
+  destruct (interN blk failed) as [|b r] eqn:E; [destruct (is_nil blk), (j_flag (qj_job x)); reflexivity|].
+  exfalso. assert (Hin : In b (interN blk failed)) by (rewrite E; left; reflexivity).
+  apply interN_spec in Hin. destruct Hin as [H1 H2]. exact (H b (Hi _ H1) H2).
+Qed.
+
+Lemma must_cancel_nil x : must_cancel [] x = false.
+Proof.
+  unfold must_cancel. assert (E : interN (qj_block x) [] = []).
+  { unfold interN. induction (qj_block x) as [|b r IH]; cbn; [reflexivity|exact IH]. }
+  rewrite E. cbn. rewrite andb_false_r. reflexivity.
+Qed.
+
+Definition nocomplete (e : ev) : Prop := match e with EvComplete _ _ => False | _ => True end.
+Definition descends (x' x : qjob) : Prop := qj_job x' = qj_job x /\ incl (qj_block x') (qj_block x).
+
+(* what a stretch of one pass did, relative to the failed set before (f) and after (f') *)
+Definition pass_rel (f : list N) (s : qstate) (f' : list N) (s' : qstate) : Prop :=
+  exists evs, q_log s' = q_log s ++ evs /\
+    (forall b, In b f' <-> In b f \/ exists rc, rc <> 0 /\ In (EvComplete b rc) evs) /\
+    (forall j blk, In (EvCancel j blk) evs ->
+       j_flag j = true /\ (exists b, In b blk /\ In b f') /\
+       exists x, In x (q_queued s) /\ qj_job x = j /\ incl blk (qj_block x)) /\
+    (forall x, In x (q_queued s) ->
+       (exists blk, In (EvCancel (qj_job x) blk) evs) \/ (exists x', In x' (q_queued s') /\ descends x' x)) /\
+    (forall x', In x' (q_queued s') -> exists x, In x (q_queued s) /\ descends x' x).
+
+Lemma descends_refl x : descends x x.
+Proof. split; [reflexivity|apply incl_refl]. Qed.
+Lemma descends_trans a b c : descends a b -> descends b c -> descends a c.
+Proof. intros [A1 A2] [B1 B2]. split; [congruence|eapply incl_tran; eassumption]. Qed.
+
+Lemma pass_rel_refl f s : pass_rel f s f s.
+Proof.
+  exists []. rewrite app_nil_r. split; [reflexivity|]. split; [|split; [|split]].
+  - intros b. split; [auto|]. intros [H|[rc [_ []]]]. exact H.
+  - intros j blk [].
+  - intros x Hx. right. exists x. split; [exact Hx|apply descends_refl].
+  - intros x Hx. exists x. split; [exact Hx|apply descends_refl].
+Qed.
+
+Lemma pass_rel_trans f0 s0 f1 s1 f2 s2 : pass_rel f0 s0 f1 s1 -> pass_rel f1 s1 f2 s2 -> pass_rel f0 s0 f2 s2.
+Proof.
+  intros [e1 [L1 [F1 [C1 [P1 D1]]]]] [e2 [L2 [F2 [C2 [P2 D2]]]]].
+  exists (e1 ++ e2). split; [rewrite L2, L1, app_assoc; reflexivity|]. split; [|split; [|split]].
+  - intros b. rewrite F2, F1. split.
+    + intros [[H|[rc [Hr H]]]|[rc [Hr H]]]; [left; exact H| |]; right; exists rc; split; auto;
+        apply in_or_app; [left|right]; exact H.
+    + intros [H|[rc [Hr H]]]; [left; left; exact H|]. apply in_app_or in H. destruct H as [H|H].
+      * left. right. exists rc. split; assumption.
+      * right. exists rc. split; assumption.
+  - intros j blk H. apply in_app_or in H. destruct H as [H|H].
+    + destruct (C1 j blk H) as [A [[b [B1 B2]] X]]. split; [exact A|]. split; [|exact X].
+      exists b. split; [exact B1|]. apply F2. left. exact B2.
+    + destruct (C2 j blk H) as [A [B [x1 [X1 [X2 X3]]]]]. split; [exact A|]. split; [exact B|].
+      destruct (D1 x1 X1) as [x0 [Y1 [Y2 Y3]]]. exists x0. split; [exact Y1|]. split; [congruence|].
+      eapply incl_tran; eassumption.
+  - intros x Hx. destruct (P1 x Hx) as [[blk H]|[x1 [X1 X2]]].
+    + left. exists blk. apply in_or_app. left. exact H.
+    + destruct (P2 x1 X1) as [[blk H]|[x2 [Y1 Y2]]].
+      * left. exists blk. destruct X2 as [E _]. rewrite <- E. apply in_or_app. right. exact H.
+      * right. exists x2. split; [exact Y1|eapply descends_trans; eassumption].
+  - intros x2 Hx. destruct (D2 x2 Hx) as [x1 [X1 X2]]. destruct (D1 x1 X1) as [x0 [Y1 Y2]].
+    exists x0. split; [exact Y1|eapply descends_trans; eassumption].
+Qed.
+
+Lemma sweep_pass name failed q : forall kept canc evs,
+  sweep name failed q = (kept, canc, evs) ->
+  Forall nocomplete evs /\
+  (forall j blk, In (EvCancel j blk) evs -> exists x, In x q /\ qj_job x = j /\ qj_block x = blk /\ must_cancel failed x = true) /\
+  (forall x, In x q -> In (EvCancel (qj_job x) (qj_block x)) evs \/ exists x', In x' kept /\ descends x' x) /\
+  (forall x', In x' kept -> must_cancel failed x' = false /\ exists x, In x q /\ descends x' x).
+Proof.
+  induction q as [|x r IH]; intros kept canc evs H; cbn in H.
+  - inversion H; subst. split; [constructor|]. split; [intros j blk []|]. split; intros y [].
+  - destruct (sweep name failed r) as [[k c] e]. destruct (IH k c e eq_refl) as [A [B [C D]]].
+    destruct (must_cancel failed x) eqn:Hm; [|destruct (memN name (qj_block x)) eqn:Hn]; inversion H; subst; clear H.
+    + split; [constructor; [exact I|exact A]|]. split; [|split].
+      * intros j blk [E|Hin].
+        -- inversion E; subst. exists x. repeat split; [left; reflexivity|exact Hm].
+        -- destruct (B j blk Hin) as [y [Y1 Y2]]. exists y. split; [right; exact Y1|exact Y2].
+      * intros y [<-|Hy]; [left; left; reflexivity|].
+        destruct (C y Hy) as [H1|[y' [H1 H2]]]; [left; right; exact H1|right; exists y'; tauto].
+      * intros y Hy. destruct (D y Hy) as [D1 [z [Z1 Z2]]]. split; [exact D1|]. exists z. split; [right; exact Z1|exact Z2].
+    + set (x1 := {| qj_job := qj_job x; qj_block := removeN name (qj_block x) |}).
+      assert (Hd : descends x1 x).
+      { split; [reflexivity|]. cbn. intros b Hb. apply removeN_In in Hb. tauto. }
+      split; [constructor; [exact I|exact A]|]. split; [|split].
+      * intros j blk [E|Hin]; [discriminate|].
+        destruct (B j blk Hin) as [y [Y1 Y2]]. exists y. split; [right; exact Y1|exact Y2].
+      * intros y [<-|Hy]; [right; exists x1; split; [left; reflexivity|exact Hd]|].
+        destruct (C y Hy) as [H1|[y' [H1 H2]]]; [left; right; exact H1|right; exists y'; split; [right; exact H1|exact H2]].
+      * intros y [<-|Hy].
+        -- split; [apply must_cancel_shrink; [exact Hm|exact (proj2 Hd)]|]. exists x. split; [left; reflexivity|exact Hd].
+        -- destruct (D y Hy) as [D1 [z [Z1 Z2]]]. split; [exact D1|]. exists z. split; [right; exact Z1|exact Z2].
+    + split; [exact A|]. split; [|split].
+      * intros j blk Hin. destruct (B j blk Hin) as [y [Y1 Y2]]. exists y. split; [right; exact Y1|exact Y2].
+      * intros y [<-|Hy]; [right; exists x; split; [left; reflexivity|apply descends_refl]|].
+        destruct (C y Hy) as [H1|[y' [H1 H2]]]; [left; exact H1|right; exists y'; split; [right; exact H1|exact H2]].
+      * intros y [<-|Hy].
+        -- split; [exact Hm|]. exists x. split; [left; reflexivity|apply descends_refl].
+        -- destruct (D y Hy) as [D1 [z [Z1 Z2]]]. split; [exact D1|]. exists z. split; [right; exact Z1|exact Z2].
+Qed.
+
+Definition all_kept_ok (f : list N) (s : qstate) : Prop := forall x, In x (q_queued s) -> must_cancel f x = false.
+
+Lemma handle_one_pass failed s name s' c : handle_one failed s name = (s', c) ->
+  pass_rel failed s failed s' /\ all_kept_ok failed s'.
+Proof.
+  unfold handle_one. destruct (sweep name failed (q_queued s)) as [[kept canc] evs] eqn:Hs.
+  intros H. inversion H; subst; clear H.
+  destruct (sweep_pass _ _ _ _ _ _ Hs) as [A [B [C D]]]. split.
+  - exists evs. cbn. split; [reflexivity|]. split; [|split; [|split]].
+    + intros b. split; [auto|]. intros [H|[rc [_ H]]]; [exact H|].
+      rewrite Forall_forall in A. destruct (A _ H).
+    + intros j blk Hin. destruct (B j blk Hin) as [x [X1 [X2 [X3 X4]]]].
+      apply must_cancel_true in X4. destruct X4 as [F1 [b [F2 F3]]].
+      split; [congruence|]. split; [exists b; split; [congruence|exact F3]|].
+      exists x. split; [exact X1|]. split; [exact X2|]. rewrite X3. apply incl_refl.
+    + intros x Hx. destruct (C x Hx) as [H|H]; [left; exists (qj_block x); exact H|right; exact H].
+    + intros x' Hx. exact (proj2 (D x' Hx)).
+  - intros x Hx. cbn in Hx. exact (proj1 (D x Hx)).
+Qed.
+
+Lemma handle_all_pass failed names : forall s s' c, handle_all failed s names = (s', c) ->
+  pass_rel failed s failed s' /\ (names <> [] \/ all_kept_ok failed s -> all_kept_ok failed s').
+Proof.
+  induction names as [|n r IH]; intros s s' c H; cbn in H.
+  - inversion H; subst. split; [apply pass_rel_refl|]. intros [H1|H1]; [congruence|exact H1].
+  - destruct (handle_one failed s n) as [s1 c1] eqn:H1.
+    destruct (handle_all failed s1 r) as [s2 c2] eqn:H2. inversion H; subst; clear H.
+    apply handle_one_pass in H1. destruct H1 as [P1 K1].
+    apply IH in H2. destruct H2 as [P2 K2].
+    split; [eapply pass_rel_trans; eassumption|]. intros _. apply K2. right. exact K1.
+Qed.
+
+Lemma failed_of_In b comp : In b (failed_of comp) <-> exists rc, rc <> 0 /\ In (b, rc) comp.
+Proof.
+  unfold failed_of. rewrite in_map_iff. split.
+  - intros [[b' rc] [E H]]. cbn in E. subst b'. apply filter_In in H. destruct H as [H1 H2].
+    cbn in H2. apply negb_true_iff in H2. apply Z.eqb_neq in H2. exists rc. split; assumption.
+  - intros [rc [Hr H]]. exists (b, rc). split; [reflexivity|]. apply filter_In. split; [exact H|].
+    cbn. apply negb_true_iff. apply Z.eqb_neq. exact Hr.
+Qed.
+
+Lemma check_iter_pass failed s ans s2 rerun failed' ans' :
+  check_iter failed s ans = (s2, rerun, failed', ans') ->
+  pass_rel failed s failed' s2 /\ (all_kept_ok failed s -> all_kept_ok failed' s2).
+Proof.
+  unfold check_iter. destruct (scan (q_out s) ans) as [comp a] eqn:Hs.
+  match goal with |- context [handle_all ?f ?s1 ?n] => destruct (handle_all f s1 n) as [s2' r] eqn:Hh end.
+  intros H. inversion H; subst; clear H.
+  apply handle_all_pass in Hh. destruct Hh as [P K]. split.
+  - eapply pass_rel_trans; [|exact P].
+    exists (map (fun c => EvComplete (fst c) (snd c)) comp). cbn. split; [reflexivity|]. split; [|split; [|split]].
+    + intros b. rewrite in_app_iff, failed_of_In. split.
+      * intros [H|[rc [Hr H]]]; [left; exact H|right]. exists rc. split; [exact Hr|].
+        apply in_map_iff. exists (b, rc). split; [reflexivity|exact H].
+      * intros [H|[rc [Hr H]]]; [left; exact H|right]. exists rc. split; [exact Hr|].
+        apply in_map_iff in H. destruct H as [[b' rc'] [E H]]. cbn in E. inversion E; subst. exact H.
+    + intros j blk H. apply in_map_iff in H. destruct H as [c [E _]]. discriminate.
+    + intros x Hx. right. exists x. split; [exact Hx|apply descends_refl].
+    + intros x Hx. exists x. split; [exact Hx|apply descends_refl].
+  - intros K0. apply K. destruct comp as [|c0 cr]; [right|left; discriminate].
+    cbn. rewrite app_nil_r. exact K0.
+Qed.
+
+Lemma check_loop_pass : forall fuel failed s ans s' f' a',
+  check_loop fuel failed s ans = (s', f', a') ->
+  pass_rel failed s f' s' /\ (all_kept_ok failed s -> q_err s' = q_err s -> all_kept_ok f' s').
+Proof.
+  induction fuel as [|f IH]; intros failed s ans s' f' a' H; cbn in H.
+  - inversion H; subst. split; [|intros K _; exact K].
+    destruct (pass_rel_refl f' s) as [evs R]. exists evs. exact R.
+  - destruct (check_iter failed s ans) as [[[s2 rerun] failed2] ans2] eqn:Hi.
+    pose proof (check_iter_facts _ _ _ _ _ _ _ Hi) as [[_ [E2 _]] _].
+    apply check_iter_pass in Hi. destruct Hi as [P K]. destruct rerun.
+    + apply IH in H. destruct H as [P' K']. split; [eapply pass_rel_trans; eassumption|].
+      intros K0 He. apply K'; [apply K; exact K0|congruence].
+    + inversion H; subst. split; [exact P|]. intros K0 _. apply K. exact K0.
+Qed.
+
+(* One pass of _check_completions (any state, any answers).  F = the pass's failed_jobs set:
+   - F is exactly the set of names seen complete with a non-zero return code in this pass (a job
+     canceled in this pass is parked and seen complete with cancel_rc in the next iteration);
+   - a job is canceled only if it is flagged and one of its current blockers is in F  (unflagged
+     jobs are never canceled);
+   - every job queued before the pass was either canceled or is still queued with a blocking set
+     that only shrank, and no job still queued is flagged with a current blocker in F. *)
+Theorem check_completions_cancels_iff : forall s ans s' F rest,
+  check_completions s ans = (s', F, rest) ->
+  exists evs, q_log s' = q_log s ++ evs /\
+    (forall b, In b F <-> exists rc, rc <> 0 /\ In (EvComplete b rc) evs) /\
+    (forall j blk, In (EvCancel j blk) evs ->
+       j_flag j = true /\ (exists b, In b blk /\ In b F) /\
+       exists x, In x (q_queued s) /\ qj_job x = j /\ incl blk (qj_block x)) /\
+    (forall x, In x (q_queued s) ->
+       (exists blk, In (EvCancel (qj_job x) blk) evs) \/
+       (exists x', In x' (q_queued s') /\ qj_job x' = qj_job x /\ incl (qj_block x') (qj_block x))) /\
+    (forall x', In x' (q_queued s') ->
+       must_cancel F x' = false /\
+       exists x, In x (q_queued s) /\ qj_job x' = qj_job x /\ incl (qj_block x') (qj_block x)).
+Proof.
+  intros s ans s' F rest H. unfold check_completions in H.
+  pose proof (check_loop_facts _ _ _ _ _ _ _ H ltac:(lia)) as [[_ [He _]] _].
+  apply check_loop_pass in H. destruct H as [[evs [L [Fs [C [P D]]]]] K].
+  exists evs. split; [exact L|]. split; [|split; [exact C|split; [exact P|]]].
+  - intros b. rewrite Fs. split; [intros [[]|H]; exact H|intros H; right; exact H].
+  - intros x' Hx. split; [|exact (D x' Hx)].
+    apply K; [intros x _; apply must_cancel_nil|exact He|exact Hx].
+Qed.
+
+(* canceled jobs are started never: a cancel and a run of the same name need two submits *)
+Corollary queue_cancel_excludes_run : forall depth existing ops j1 b1 j2 b2 ok n,
+  In (EvCancel j1 b1) (q_log (run_ops depth (init existing) ops)) ->
+  In (EvRun j2 b2 ok n) (q_log (run_ops depth (init existing) ops)) ->
+  j_name j1 = j_name j2 -> (2 <= nsubmits (j_name j1) ops)%nat.
+Proof.
+  intros depth existing ops j1 b1 j2 b2 ok n H1 H2 E.
+  eapply Nat.le_trans; [|apply (queue_runs_once depth existing ops (j_name j1))].
+  unfold nstarted. set (l := q_log (run_ops depth (init existing) ops)) in *.
+  apply in_split in H1. destruct H1 as [p [q Hl]]. rewrite Hl in *.
+  rewrite filter_app, app_length. cbn. rewrite N.eqb_refl. cbn.
+  apply in_app_or in H2. destruct H2 as [H2|[H2|H2]]; [|discriminate|].
+  - apply in_split in H2. destruct H2 as [p1 [p2 ->]]. rewrite filter_app, app_length. cbn.
+    rewrite E, N.eqb_refl. cbn. lia.
+  - apply in_split in H2. destruct H2 as [p1 [p2 ->]]. rewrite filter_app, app_length. cbn.
+    rewrite E, N.eqb_refl. cbn. lia.
+Qed.
